@@ -666,7 +666,7 @@ def gen_plan(family, seed, msgs, tier='quick', index=None):
     weights = [('cli', 5), ('scan', 4), ('decode', 30), ('decode_info', 4), ('decode_bad', 100 * p_fail / 2), ('render', 14), ('query', 8),
                ('mdquery', 3), ('script', 3), ('wire', 3), ('encode', 10), ('encode_bad', 100 * p_fail / 4),
                ('subset_encode', 5), ('lookup', 6), ('restart', 2 + save_bias),
-               ('invalidate', 1)]
+               ('invalidate', 1), ('again', 7)]
     if io_family:
         weights.append(('arm_io', 6))
     if c08:
@@ -702,6 +702,17 @@ def gen_plan(family, seed, msgs, tier='quick', index=None):
         k = rng.choices(names, wts)[0]
         c = rng.randrange(nclients)
         mi = rng.randrange(len(chosen))
+        if k == 'again':
+            # the same operation once more, by the same client - right away or after whatever came in between:
+            # a second meeting with a message (in particular one that FAILED the first time) must end like the first
+            prev = [o for o in ops[-8:] if o['op'] in ('decode', 'decode_bad', 'decode_info', 'encode', 'encode_bad', 'scan')]
+            if not prev:
+                continue
+            op = json.loads(json.dumps(prev[-1] if rng.random() < 0.6 else rng.choice(prev)))
+            if op['op'] == 'decode' and not chosen[op['m']].get('rej'):
+                handles.append((len(ops), op['m'], chosen[op['m']]['nsub'], op.get('wire', True)))
+            ops.append(op)
+            continue
         if k in ('render', 'query', 'mdquery', 'script', 'wire', 'subset_encode') and not handles:
             k = 'decode'
         if chosen[mi].get('rej') and k in ('encode', 'encode_bad', 'decode_bad', 'cli'):
@@ -843,6 +854,17 @@ def oracle_with(plan, tr, refs):
                             'got': _cls(got), 'exp': _cls(exp)})
                 if op['op'] == 'decode':
                     bad_handles.add(i)
+        if fam == 'c08' and comp and op['op'] in ('decode_bad', 'scan') and not _c08_domain(plan, op):
+            # damage to the descriptor list: which error each path reports, and whether the compiler fails on
+            # a descriptor the data never reach, is outside the property - but a compiling coder that DELIVERS
+            # where the interpreting one refuses has run something that is not the template
+            keyi, _ = ref_spec(plan, i, compiled_override=False)
+            expi = refs.get(keyi)
+            if expi is not None and expi != 'step-budget-exceeded' and op['op'] == 'decode_bad' and \
+                    _cls(got) == 'result' and _cls(expi) != 'result':
+                out.append({'property': 'C08', 'clause': 'C08.h', 'op': 'decode_bad-delivered', 'got': 'result',
+                            'exp': _cls(expi), 'raise_site': None})
+            continue
         if fam == 'c08' and comp and op['op'] in ('decode', 'encode', 'decode_bad', 'encode_bad', 'subset_encode',
                                                    'render', 'wire', 'query', 'scan') and _c08_domain(plan, op):
             keyi, _ = ref_spec(plan, i, compiled_override=False)
@@ -942,7 +964,8 @@ def specs_needed(plan, tr):
     out = []
     for i in compared_ops(plan, tr):
         out.append(ref_spec(plan, i))
-        if plan['family'] == 'c08' and _client_compiled(plan, plan['ops'][i]) and _c08_domain(plan, plan['ops'][i]):
+        if plan['family'] == 'c08' and _client_compiled(plan, plan['ops'][i]) and \
+                (_c08_domain(plan, plan['ops'][i]) or plan['ops'][i]['op'] == 'decode_bad'):
             out.append(ref_spec(plan, i, compiled_override=False))
     return out
 
